@@ -166,7 +166,7 @@ def gammainc(ctx, z, a=0, b=None, regularized=False):
         return +ctx._gamma3(z, a, b, regularized)
     # Upper gamma
     elif lower_modified:
-        return ctx._upper_gamma(z, a, regularized)
+        return +ctx._upper_gamma(z, a, regularized)
     # Lower gamma
     elif upper_modified:
         return ctx._lower_gamma(z, b, regularized)
